@@ -42,7 +42,7 @@ def generate(ctx):
                "compensate": comp, "frequency": fmax, "shape": list(shape), "online": rng.random() < 0.4,
                "module": rng.random() < 0.5, "seed": rng.randrange(1 << 31),
                "zeros": rng.choice(["some", "some", "all", "none"]), "ones": rng.random() < 0.6,
-               "reconfigure": rng.random() < 0.35}
+               "reconfigure": rng.random() < 0.35, "layout": rng.choice(["row_major", "row_major", "transposed"])}
     yield from _saturated(rng, 400 if ctx.tier == "thorough" else 12)
     # silence at zero intensity is a statement about every draw of the generator: very many zero-intensity element-steps
     for i in range(320 if ctx.tier == "thorough" else 24):
@@ -79,6 +79,9 @@ def _inputs(desc):
         flat.fill_(1.0)
     elif desc["ones"] and flat.numel() > 1 and desc["zeros"] != "all":
         flat[1] = 1.0
+    if desc.get("layout") == "transposed" and x.ndim >= 2:
+        # the same intensities stored column-major (what a transposed view or a channels-last image batch looks like)
+        x = x.transpose(0, -1).contiguous().transpose(0, -1)
     return x
 
 
@@ -158,10 +161,12 @@ def run_case(ctx, desc):
         ctx.count("setter_configured_encoders")
         opk += ".setter_configured"
     outs = []
+    if desc.get("layout") == "transposed" and x.ndim >= 2 and not x.is_contiguous():
+        ctx.count("intensity_tensors_not_row_major")
     for rep in range(2):
         gen = torch.Generator().manual_seed(desc["seed"])
         try:
-            res, nsl = _run(desc, x.clone(), gen)
+            res, nsl = _run(desc, x.clone(memory_format=torch.preserve_format), gen)
         except Exception as e:  # noqa: BLE001
             ctx.violation(ctx.exc_signature(e, opk + (".multi_element" if x.numel() > 1 else ".single_element")),
                           f"encoder raised {type(e).__name__}: {str(e)[:140]}", desc)
